@@ -126,7 +126,7 @@ def _run(prop, tier, replay, seed, work, t0):
             r = C.design_check(DESIGN_MODULE.get(cfg, "Loop"), cfg, work, workers=12 if quick else 14, timeout=240 if quick else 1500, xmx="10g")
             design.append(r)
         # ---- vacuity guard: a seeded model mutant must trip the monitor it is aimed at
-        for cfg, tag in muts[: (1 if quick and prop not in ("C17", "C18") else len(muts))]:
+        for cfg, tag in muts:      # (all of them in both tiers: they are cheap, and the two tiers must not drift apart)
             r = C.tlc_model(cfg.split("_mut_")[0] if cfg.split("_mut_")[0] in ("Handshake", "AlbumArt") else "Loop", cfg, work, workers=4, timeout=200, coverage=False)
             # Inv_Final evaluates WFinal (C01/C08 end-of-session clauses) as a state predicate: its tag is not in the state
             # (likewise Inv_Iff of Handshake.tla: connect succeeds only on a valid greeting and an accepted password)
